@@ -5,10 +5,6 @@ import WS.Props.G2.HandshakeDefs
 namespace WS.Props.G2
 open WS WS.Model WS.Model.Guard WS.Gen.Guards2
 
-theorem selectDeflate_matches : ∀ mode : Fin 3, ∀ more pmd ok : Bool,
-    run (envSelectDeflate mode.val more pmd ok) g_c_selectDeflate = selectDeflateExpected mode.val more pmd ok := by
-  decide +kernel
-
 /-- `acceptDeflate`, one parameter of an offer: exactly what the handshake model does with a parameter of that kind (C14). -/
 theorem acceptDeflate_step_matches : ∀ more seen : Bool, ∀ k ∈ PK.all,
     run (envAcceptDeflate more seen k) g_c_acceptDeflate = acceptDeflateExpected more seen k := by
